@@ -557,7 +557,10 @@ theorem runTrx_cinv {B : Int} (hB : B < (two255 : Int)) {s : St} {ht : Int} {tx 
 /-- **one CheckTx keeps the mempool-view invariant and its bound** -/
 theorem handleTx_cinv {B : Int} (hB : B < (two255 : Int)) (s : St) (ht : Int) (tx : TxIn) (hc : CInv B s) :
     CInv B (handleTx s false ht tx).1 := by
-  unfold handleTx
+  by_cases hlen : byteLen tx.to = 20
+  case neg => rw [handleTx_badlen_fst hlen]; exact hc
+  rw [handleTx_goodlen hlen]
+  unfold handleTxOld
   simp only []
   split
   · exact hc
